@@ -933,7 +933,7 @@ fn c17_case(req: &str) -> Case {
         for _ in 0..late {
             let (port, wait) = (srv.port, if again { timeout_ms + 2500 } else { 300 });
             late_tasks.push(tokio::spawn(async move {
-                match Cli::connect(port, None).await { Ok(mut c) => { if proxy { c.raw(&header_menu(1)).await; } c.status(Duration::from_millis(wait)).await.is_some() } Err(_) => false }
+                match Cli::connect(port, None).await { Ok(mut c) => { let at = c.t0; if proxy { c.raw(&header_menu(1)).await; } (Some(at), c.status(Duration::from_millis(wait)).await.is_some()) } Err(_) => (None, false) }
             }));
         }
         if !again { tokio::time::sleep(Duration::from_millis(320)).await; }
@@ -947,12 +947,15 @@ fn c17_case(req: &str) -> Case {
             if coop && !transferred { why.push(format!("in-flight client {i} ({}) cooperated but never received its Transfer", stages[i])); }
             if let Some(d) = done { if last_done.is_none_or(|l| d > l) { last_done = Some(d); } }
         }
+        // a connection established only after listen() had returned belongs to the next cycle of a restarted Listener, not to this one
         let mut late_served = 0;
-        for t in late_tasks { if t.await.unwrap_or(false) { late_served += 1; } }
+        let mut late_results = vec![];
+        for t in late_tasks { late_results.push(t.await.unwrap_or((None, false))); }
         // listen() must return, and only after the last session finished
         let deadline = t_stop + Duration::from_millis(timeout_ms + 1500);
         while srv.returned_at().is_none() && Instant::now() < deadline { tokio::time::sleep(Duration::from_millis(10)).await; }
         let ret = srv.returned_at();
+        for (at, served) in late_results { if served && !(again && matches!((at, ret), (Some(a), Some(r)) if a >= r)) { late_served += 1; } }
         let in_flight = !stages.is_empty();
         let early = in_flight && (returned_early_probe.is_some() || match (ret, last_done) { (Some(r), Some(l)) => r + Duration::from_millis(50) < l, _ => false });
         if !all_ready { why.push("set-up: not every in-flight client reached its stage".into()); }
